@@ -362,9 +362,19 @@ func (s *TranslateFile) replayEntries() error {
 	for {
 		offset := s.n
 
-		var entry LogEntry
-		if n, err := entry.ReadFrom(r); err == io.EOF {
+		// Clean end of the log.
+		if r.Len() == 0 {
 			return nil
+		}
+
+		var entry LogEntry
+		if n, err := entry.ReadFrom(r); err == io.EOF || err == io.ErrUnexpectedEOF {
+			// The log ends inside an entry: an append that was cut short
+			// by a crash and never acknowledged. Drop the partial entry,
+			// otherwise the store cannot be opened again (or, when the cut
+			// falls on a field boundary, later entries are appended behind
+			// the garbage while their keys are looked up at s.n).
+			return s.file.Truncate(offset)
 		} else if err != nil {
 			return err
 		} else {
